@@ -341,6 +341,9 @@ func genC14(r *rand.Rand, w *W) [][]string {
 		if r.Intn(3) == 0 {
 			init = []string{"zz", "keep"}
 		}
+		if r.Intn(10) == 0 { // a parameter already in the context that is named like a domain parameter (known finding F28)
+			init = append(init, pick(r, []string{"sub", "tld", "n", "a", "all"}), "before")
+		}
 		op := append([]string{"hmatch", host}, list(init...)...)
 		if simple {
 			op = append(append(op, "w", strings.ToLower(p)), list(kv...)...)
